@@ -147,6 +147,13 @@ type seqRun struct {
 	staging    string
 	stagedWALs int
 	nfile      int
+	// lineageOK: the source database equals the newest listed snapshot plus
+	// the staged WALs plus its own WAL. A local full snapshot checkpoints the
+	// source, so until that snapshot (or a later reset) is in the store, WAL
+	// segments cut from the source do not continue the store's chain. rqlite
+	// is in the same position only while a full snapshot is due; the harness
+	// re-synchronises (as a restart does) if something else cleared that.
+	lineageOK bool
 
 	trace     []any
 	dumpCache map[string]string
@@ -240,10 +247,13 @@ func (s *seqRun) restart() {
 func (s *seqRun) resetLocalToNewest() {
 	os.RemoveAll(s.staging)
 	s.stagedWALs = 0
+	s.lineageOK = false
 	if n := len(s.m.snaps); n > 0 {
 		if err := s.local.ResetTo(s.m.snaps[n-1].Exp.DBFile); err != nil {
 			s.abort("harness: reset source: " + err.Error())
+			return
 		}
+		s.lineageOK = true
 	}
 }
 
@@ -606,6 +616,7 @@ func (s *seqRun) sinkOp(o opSpec) {
 		}
 		os.RemoveAll(s.staging) // the full copy contains everything staged so far
 		s.stagedWALs = 0
+		s.lineageOK = false // until this snapshot is in the store
 		if herr == nil {
 			cand.Exp, herr = s.local.State(s.file("expect.db"))
 		}
@@ -613,6 +624,14 @@ func (s *seqRun) sinkOp(o opSpec) {
 		w.Kind, w.DB = "full", dbf
 	case "localinc":
 		isInc = true
+		if !s.lineageOK && !s.m.dueFull() {
+			// see lineageOK: do what a restarted node does before going on
+			s.resetLocalToNewest()
+			s.c.Count("harness_source_resynchronised", 1)
+			if s.aborted {
+				return
+			}
+		}
 		herr = s.local.Mutate(o.Stmts)
 		if herr == nil {
 			_, herr = s.local.CutWALStaged(s.staging)
@@ -844,6 +863,13 @@ func (s *seqRun) sinkOp(o opSpec) {
 	// source bookkeeping, mirroring what a node does
 	installed := s.m.find(cand.ID) >= 0
 	switch {
+	case o.Payload == "localfull" && installed:
+		s.lineageOK = s.m.snaps[len(s.m.snaps)-1].ID == cand.ID
+	case o.Payload == "localinc" && !s.lineageOK:
+		// a refused incremental cut from an out-of-line source: its WAL must
+		// not be offered again
+		os.RemoveAll(s.staging)
+		s.stagedWALs = 0
 	case o.Payload == "localinc" && installed:
 		s.stagedWALs = 0 // the staging directory was moved into the store
 		os.RemoveAll(s.staging)
@@ -982,7 +1008,7 @@ func run(c *vf.Ctx) {
 	c.Assume("expected databases come from a stock-driver SQLite twin (sqlref logical dump); SQLite itself is trusted")
 	c.Assume("installs are never generated with a (term,index) that sorts inside an existing full→incremental chain (raft does not install below its own newest snapshot; such an install would re-parent the incrementals)")
 	c.Assume("the automatic reaper is disabled (threshold 2^30); reaps are explicit operations; staging directories always hold ≥1 WAL (store.fsmSnapshot guarantees it)")
-	c.Assume("after a child exit the harness resets its source database to the newest listed snapshot, as a restarted node restores from its store")
+	c.Assume("after a child exit the harness resets its source database to the newest listed snapshot, as a restarted node restores from its store; it does the same before cutting an incremental when an earlier local full snapshot checkpointed the source but never reached the store and FULL_NEEDED was meanwhile cleared by an unrelated install (a state rqlite itself cannot be in: its install replaces the database)")
 
 	defer snapgen.UseFastTmp("c09")()
 
